@@ -98,3 +98,20 @@ register(Contract(
     },
     properties=['C13', 'C12'], gen='graph_and_subset',
 ))
+
+register(Contract(
+    qual=SC + ':SCFG.is_reachable_dfs', params={'self': 'SCFG', 'begin': 'name', 'end': 'name'}, returns='bool', pure=True,
+    locals={'seen': 'set[name]', 'to_vist': 'list[name]'},
+    raises={'KeyError': 'begin not in self.graph'},
+    ensures={'def': 'implies(begin in self.graph, result == reach1(self.graph, begin, end))'},
+    loops={'while True': LoopSpec(
+        inv={
+            'seen-reach': 'all(reach1(self.graph, begin, x) for x in seen)',
+            'tv-reach': 'all(reach1(self.graph, begin, x) for x in to_vist)',
+            'start': 'all(t in seen or t in to_vist for t in self.graph[begin].jump_targets)',
+            'closed': 'all(t in seen or t in to_vist for x in seen if x in self.graph for t in self.graph[x].jump_targets)',
+            'end-unseen': 'end not in seen',
+        },
+        assume={'R-ind': 'rind(self.graph, begin, seen)'})},
+    properties=['C13'], gen='graph_and_pair',
+))
